@@ -92,6 +92,46 @@ CHECKS = {
         "raise are skipped (C05).",
         "DESIGN.md 5/C16",
     ),
+    "C02": (
+        "exploration",
+        "exhaustive enumeration of heading-level and list-marker sequences + "
+        "Hypothesis outlines against a reference nesting model (sentinel "
+        "ancestor chains)",
+        "All heading-level sequences up to length 4 (with every catalogue "
+        "filler and with rules) and all */# marker sequences up to 3 lines "
+        "are parsed and every sentinel's chain of enclosing sections and "
+        "(list, item) prefixes is compared with the reference model; random "
+        "outlines to 22 lines extend this beyond the enumerated bound.",
+        "Trusts refs/outline.py; only * and # markers and balanced fillers "
+        "(the statement's domain).",
+        "DESIGN.md 5/C02",
+    ),
+    "C03": (
+        "exploration",
+        "grid / tag-table / argument-vector enumeration + Hypothesis tables, "
+        "structural oracle plus differential content comparison with the "
+        "stand-alone parse",
+        "Tables up to 4x4 over layouts, kind patterns and attribute maps, "
+        "every paired allowed tag, and call constructs with all argument "
+        "vectors up to length 2 are parsed; shape, kinds, attribute maps and "
+        "argument counts must match the written structure and content must "
+        "parse as it does stand-alone.",
+        "Trusts refs/tree.py canon; contents drawn from a fixed inline "
+        "catalogue without bare | / !!.",
+        "DESIGN.md 5/C03",
+    ),
+    "C19": (
+        "exploration",
+        "property-based round-trip testing (Hypothesis structured documents) "
+        "under a stated tree equivalence",
+        "Generated documents of the statement's grammar are parsed, "
+        "serialised, re-parsed twice; canonical trees (whitespace at block "
+        "boundaries forgiven, nothing else) must be equal and the second "
+        "round trip a fixed point; literal bracket strings must survive.",
+        "Trusts refs/tree.py canon; one listed known finding (adjacent quote "
+        "runs) is excluded by signature.",
+        "DESIGN.md 5/C19",
+    ),
 }
 
 NOT_YET = "check not built yet in this round (planned in DESIGN.md section 5)"
